@@ -719,6 +719,9 @@ def run(ctx):
         # really signed segments, the shipped validators in force (the application's default, the shipped checkers)
         from harness.props import c19_sig
         c19_sig.stream_f(ctx)
+        # the MetaInfo of the answers varies (FreshnessPeriod / ContentType forms, FinalBlockId placement) x must_be_fresh
+        from harness.props import c19_meta
+        c19_meta.stream_g(ctx)
     except Runaway:
         ctx.notes.append('stopped early: the fetcher under test does not terminate on lost Interests')
 
